@@ -452,8 +452,8 @@ def write_evidence(prop, tier, seed, t0, coverage, violations, extra=None):
     }
     if extra:
         ev.update(extra)
-    d = ROOT / "evidence"
-    d.mkdir(exist_ok=True)
+    d = Path(os.environ.get("HV_EVIDENCE_DIR", ROOT / "evidence"))
+    d.mkdir(parents=True, exist_ok=True)
     (d / f"{prop.id}.json").write_text(json.dumps(ev, indent=1))
 
 
